@@ -365,6 +365,7 @@ func (s *Sorts) prelude() string {
 (declare-datatypes ((Iface 0)) (((mk_iface (ityp Int) (ival Int)))))
 (define-fun iface_nil () Iface (mk_iface 0 0))
 (declare-fun ix (Int Int) Int)
+(declare-fun fieldaddr (Int Int) Int)
 (declare-fun unix (Int Int) Int)
 ;IXAXIOM
 (define-fun tdiv ((a Int) (b Int)) Int (ite (>= a 0) (ite (> b 0) (div a b) (- (div a (- b)))) (ite (> b 0) (- (div (- a) b)) (div (- a) (- b)))))
